@@ -16,6 +16,7 @@ import (
 	"os"
 	"reflect"
 	"sort"
+	"strings"
 	"testing"
 	"time"
 
@@ -628,6 +629,34 @@ func (e *env) doRestart(i int) {
 	n.Do(func() { after = n.DP.VerifLibStatusDump() })
 	if before != after {
 		x.Count("status-dump-differs-after-restart", 1)
+		x.Logf("restart %d status before: %s", i, before)
+		x.Logf("restart %d status after : %s", i, after)
+		// Entries that only say "this producer has proposed nothing yet" (pre-LIB = genesis) come and go
+		// with the window of blocks the status is rebuilt from; what must survive a restart unchanged
+		// are the LIB and every real proposal.
+	}
+	// What a restart restores must be derivable from the stored main chain: every real proposal
+	// names a proposed block and a proposing block that are on the node's main chain. (The status
+	// in memory before the restart may legitimately know less: proposals are reset conservatively
+	// when a branch is abandoned.)
+	for _, f := range strings.Split(realProposals(after), ";") {
+		var bpid, plibHash, byHash string
+		var plibNo, byNo uint64
+		g := strings.NewReplacer(":", " ", "/", " ", "<-", " ").Replace(f)
+		if n, _ := fmt.Sscanf(g, "%s %d %s %d %s", &bpid, &plibNo, &plibHash, &byNo, &byHash); n != 5 {
+			continue // the "lib=... lpb=..." head
+		}
+		for _, q := range []struct {
+			no   uint64
+			hash string
+		}{{plibNo, plibHash}, {byNo, byHash}} {
+			var b *types.Block
+			n.Do(func() { b, _ = n.CS.VerifGetBlockByNo(q.no) })
+			if b == nil || b.ID() != q.hash {
+				x.Fail("C08", "restored-status-not-from-main-chain", "clean-restart", fmt.Sprintf("node %d: after the restart the finality status holds the proposal %s, whose block %d/%s is not on the node's main chain", i, f, q.no, q.hash), e.step)
+				return
+			}
+		}
 	}
 	x.Logf("restart %d lib=%d", i, an)
 }
@@ -680,6 +709,18 @@ func (e *env) pfSig() string {
 		return "after-private-branch"
 	}
 	return "no-private-branch"
+}
+
+// realProposals drops the "nothing proposed yet" entries (pre-LIB 0) from a status dump.
+func realProposals(dump string) string {
+	var keep []string
+	for _, f := range strings.Split(dump, ";") {
+		if f == "" || strings.Contains(f, ":0/") {
+			continue
+		}
+		keep = append(keep, f)
+	}
+	return strings.Join(keep, ";")
 }
 
 func (e *env) lib(i int) (uint64, string) {
